@@ -620,3 +620,41 @@ Definition select_files (ign : str -> bool -> bool) (acc : str -> bool) (filt : 
   let all := flat_map (fun it => list_files ign acc (fst it) (snd it)) inputs in
   let kept := match filt with Some f => filter f all | None => all end in
   dedup_by key [] kept.
+
+(* ------------------------------------------------------------------ *)
+(* Syntactically canonical raw strings, checked on the reversed string:
+   comp_ok r: the component that ends here (r = its characters backwards,
+   then the rest) is not "", "." or ".." *)
+Definition comp_ok (r : str) : bool :=
+  match r with
+  | [] => true
+  | c :: r2 =>
+      if c =? DOT then
+        match r2 with
+        | [] => false
+        | c2 :: r3 =>
+            if c2 =? DOT then
+              match r3 with
+              | [] => true
+              | c3 :: _ => negb (c3 =? SL)
+              end
+            else negb (c2 =? SL)
+        end
+      else negb (c =? SL)
+  end.
+
+(* every separator (except a root) is followed, leftwards, by such a component *)
+Fixpoint all_ok (k : nat) (r : str) : bool :=
+  match r with
+  | [] => true
+  | _ :: r' =>
+      match r' with
+      | c :: r'' => (if c =? SL then negb (gt_root k r') || comp_ok r'' else true) && all_ok k r'
+      | [] => true
+      end
+  end.
+
+Definition canonical_b (raw : str) : bool :=
+  let k := root_len raw in
+  let r := rev raw in
+  (negb (gt_root k r) || comp_ok r) && all_ok k r.
